@@ -205,22 +205,25 @@ func VerifC10_GC() {
 	vfAssert("len", len(l.st) == n-want)
 }
 
-// VerifC10_Converge: the same multiset of entries (distinct timestamps) delivered
-// to two logs in two different orders / batchings, with duplicates, interleaved
-// with nothing else, ends in the same state: per key the newest unexpired entry.
+// VerifC10_Converge: the same multiset of 3 (quick) / 4 (thorough) entries with
+// distinct timestamps over 2 keys, delivered to one log one by one and to another
+// in any permutation cut into any batches, each followed by a duplicate, ends in the
+// same state: per key the newest unexpired entry; duplicates are not gossiped again.
 //
-//vf:bounds unwind=8 decisions=200
+//vf:quick unwind=8 decisions=200 paths=400000
+//vf:thorough unwind=10 decisions=300 paths=6000000
 //vf:expect reach=converged
 func VerifC10_Converge() {
 	recvA := &pb.Receiver{GroupName: "r", Integration: "webhook", Idx: 0}
-	gkeys := []string{"g1", "g2"}
-	const n = 3
-	var es [n]*pb.MeshEntry
-	var ts [n]time.Time
-	var key [n]int
+	gkeys := []string{"g1", "g2", "g3"}
+	n := 3 + vfTier()
+	nKeys := 2
+	es := make([]*pb.MeshEntry, n)
+	ts := make([]time.Time, n)
+	key := make([]int, n)
 	for i := 0; i < n; i++ {
 		ts[i] = vfT10("ts")
-		key[i] = vfChoice("key", 2)
+		key[i] = vfChoice("key", nKeys)
 		es[i] = vfEntry10(gkeys[key[i]], recvA, ts[i], vfT10("exp"))
 		es[i].Entry.FiringAlerts = []uint64{uint64(i)}
 	}
@@ -230,7 +233,6 @@ func VerifC10_Converge() {
 		}
 	}
 	enc := func(idx ...int) []byte {
-		st := state{}
 		var b []byte
 		for _, i := range idx {
 			x, err := marshalMeshEntry(es[i])
@@ -239,7 +241,6 @@ func VerifC10_Converge() {
 			}
 			b = append(b, x...)
 		}
-		_ = st
 		return b
 	}
 	l1 := hNewLog10(time.Hour)
@@ -254,24 +255,35 @@ func VerifC10_Converge() {
 	before := g1
 	vfAssert("merge-ok", l1.Merge(enc(0)) == nil)
 	vfAssert("duplicate-no-gossip", g1 == before)
-	// log 2: a symbolic permutation, first two batched
-	perm := [][3]int{{0, 1, 2}, {0, 2, 1}, {1, 0, 2}, {1, 2, 0}, {2, 0, 1}, {2, 1, 0}}[vfChoice("perm", 6)]
-	if vfBool("batched") {
-		// a batch is a peer's full state: at most one entry per key
-		vfAssume(key[perm[0]] != key[perm[1]])
-		vfAssert("merge-ok", l2.Merge(enc(perm[0], perm[1])) == nil)
-		vfAssert("merge-ok", l2.Merge(enc(perm[2])) == nil)
-	} else {
-		for _, i := range []int{perm[2], perm[1], perm[0], perm[1]} {
-			vfAssert("merge-ok", l2.Merge(enc(i)) == nil)
+	// log 2: an arbitrary permutation, cut into arbitrary batches (a batch is a peer's
+	// full state: at most one entry per key), then an arbitrary entry once more
+	perms := hPerms10(n)
+	perm := perms[vfChoice("perm", len(perms))]
+	var batch []int
+	flush := func() {
+		for x := 0; x < len(batch); x++ {
+			for y := x + 1; y < len(batch); y++ {
+				vfAssume(key[batch[x]] != key[batch[y]])
+			}
+		}
+		vfAssert("merge-ok", l2.Merge(enc(batch...)) == nil)
+		batch = nil
+	}
+	for pos, i := range perm {
+		batch = append(batch, i)
+		if pos == n-1 || vfBool("cut") {
+			flush()
 		}
 	}
+	before = g2
+	vfAssert("merge-ok", l2.Merge(enc(vfChoice("duplicate", n))) == nil)
+	vfAssert("duplicate-no-gossip", g2 == before)
 	now := vfNow()
 	for i := 0; i < n; i++ {
 		vfAssume(!es[i].ExpiresAt.AsTime().Equal(now))
 	}
 	// both hold, per key, the newest entry among those not expired
-	for k := 0; k < 2; k++ {
+	for k := 0; k < nKeys; k++ {
 		best := -1
 		for i := 0; i < n; i++ {
 			if key[i] != k || es[i].ExpiresAt.AsTime().Before(now) {
@@ -290,4 +302,19 @@ func VerifC10_Converge() {
 		}
 	}
 	vfReach("converged")
+}
+
+// hPerms10: all permutations of 0..n-1.
+func hPerms10(n int) [][]int {
+	if n == 0 {
+		return [][]int{{}}
+	}
+	var out [][]int
+	for _, p := range hPerms10(n - 1) {
+		for pos := 0; pos <= len(p); pos++ {
+			q := append(append(append([]int{}, p[:pos]...), n-1), p[pos:]...)
+			out = append(out, q)
+		}
+	}
+	return out
 }
